@@ -10,7 +10,10 @@
 (*           in written order, applied ones leave the pending list; a      *)
 (*           module with nothing pending leaves the work list by swap      *)
 (*           removal; rounds repeat until one makes no progress            *)
-(*   fix     implicit cases are inserted; leftover augments are errors     *)
+(*   fix     implicit cases are inserted; if augments are left over the    *)
+(*           loop runs again (a path through an implicit case resolves     *)
+(*           only now) until a whole pass applies nothing; what is still   *)
+(*           pending then is an error                                      *)
 (*   dev     deviating modules are taken in an arbitrary order, their      *)
 (*           deviations and deviate statements in written order            *)
 (* Trees are nested records (sharing is impossible by construction); Flat  *)
@@ -31,13 +34,16 @@ VARIABLES prog,     \* the program: [mods : name -> module record, ignoreNS : BO
           devleft,  \* names of the modules whose deviations are still to apply
           errs,     \* an error has been recorded
           pc,       \* pick | build | order | aug | fix | dev | done
+          sincefix, \* augments applied since the implicit cases were last inserted
+          nfix,     \* how often they have been inserted
           naug      \* history: number of augment applications
-vars == <<prog, trees, pending, work, i, progress, devleft, errs, pc, naug>>
+vars == <<prog, trees, pending, work, i, progress, devleft, errs, pc, sincefix, nfix, naug>>
 
 \* ---- vocabulary ---------------------------------------------------------------
 DataKw == {"container", "list", "leaf", "leaf-list", "choice", "case", "rpc", "action",
            "input", "output", "notification", "anyxml", "anydata"}
 Childless == {"leaf", "leaf-list", "anyxml", "anydata"}
+Augmentable == {"container", "list", "choice", "case", "input", "output", "notification"}     \* RFC 7950 7.17
 UNB == 999999            \* max-elements unbounded
 Stmt(kw, arg, kids) == [kw |-> kw, arg |-> arg, kids |-> kids]
 ToSet(s) == {s[k] : k \in 1..Len(s)}
@@ -59,7 +65,10 @@ Node(name, kind, kids, sub) ==
    la |-> IF kind \in {"list", "leaf-list"}
           THEN [has |-> TRUE, min |-> Attr(kids, "min-elements", 0), max |-> Attr(kids, "max-elements", UNB)] ELSE NoLA,
    units |-> "", type |-> IF kind \in {"leaf", "leaf-list"} THEN Attr(kids, "type", "") ELSE "",
+   iff |-> Args(kids, "if-feature"),     \* constraints written on the statement (and on the uses / augment that placed it)
    ns |-> "", implicit |-> FALSE, kids |-> sub]
+\* the if-feature statements of a uses or augment statement constrain every node it places
+Constrain(nodes, stmtKids) == [k \in 1..Len(nodes) |-> [nodes[k] EXCEPT !.iff = @ \o Args(stmtKids, "if-feature")]]
 
 \* ---- grouping lookup by lexical scope -------------------------------------------
 \* a scope is a sequence of frames [mod, kids], innermost first, the last one being
@@ -107,7 +116,8 @@ Inst(PP, stmts, scope) ==      \* [nodes, err]
              ELSE IF s.kw = "uses" THEN
                   LET g == FindGrouping(PP, scope, s.arg) IN
                   IF ~g.found THEN [nodes |-> <<>>, err |-> TRUE]
-                  ELSE Inst(PP, g.stmt.kids, << [mod |-> g.scope[Len(g.scope)].mod, kids |-> g.stmt.kids] >> \o g.scope)
+                  ELSE LET c == Inst(PP, g.stmt.kids, << [mod |-> g.scope[Len(g.scope)].mod, kids |-> g.stmt.kids] >> \o g.scope)
+                       IN [c EXCEPT !.nodes = Constrain(@, s.kids)]
              ELSE IF s.kw = "grouping" THEN      \* parsed for its errors only
                   [nodes |-> <<>>, err |-> Inst(PP, s.kids, << [mod |-> m, kids |-> s.kids] >> \o scope).err]
              ELSE [nodes |-> <<>>, err |-> FALSE]
@@ -129,7 +139,7 @@ InstAll(PP, ms) == IF ms = <<>> THEN [nodes |-> <<>>, err |-> FALSE]
 ModuleTree(PP, m) ==
   LET r == InstAll(PP, <<m>> \o IncClosure(PP, PP[m].includes, <<>>)) IN
   [root |-> [name |-> m, kind |-> "module", cfg |-> "unset", mand |-> "unset", dflt |-> <<>>, la |-> NoLA, units |-> "",
-             type |-> "", ns |-> "", implicit |-> FALSE, kids |-> r.nodes],
+             type |-> "", iff |-> <<>>, ns |-> "", implicit |-> FALSE, kids |-> r.nodes],
    err |-> r.err \/ Dup(r.nodes)]
 MissingInclude(PP, m) == \E k \in 1..Len(PP[m].includes) : PP[m].includes[k] \notin DOMAIN PP
 MissingImport(PP, m) == \E p \in DOMAIN PP[m].imports : PP[m].imports[p] \notin DOMAIN PP
@@ -147,7 +157,7 @@ KidNamed(n, name) == LET c == {k \in 1..Len(n.kids) : n.kids[k].name = name} IN
                      IF c = {} THEN 0 ELSE CHOOSE k \in c : TRUE
 \* an rpc or action has an input and an output whether written or not
 Implicit(name) == [name |-> name, kind |-> name, cfg |-> "unset", mand |-> "unset", dflt |-> <<>>, la |-> NoLA, units |-> "",
-                   type |-> "", ns |-> "", implicit |-> FALSE, kids |-> <<>>]
+                   type |-> "", iff |-> <<>>, ns |-> "", implicit |-> FALSE, kids |-> <<>>]
 WithIO(n) == IF n.kind \in {"rpc", "action"}
              THEN [n EXCEPT !.kids = @ \o (IF KidNamed(n, "input") = 0 THEN << Implicit("input") >> ELSE <<>>)
                                        \o (IF KidNamed(n, "output") = 0 THEN << Implicit("output") >> ELSE <<>>)]
@@ -185,8 +195,8 @@ ApplyAll(PP, m, augs, T) ==      \* [trees, left, done, err]
        IN IF ~f.found THEN
                LET r == ApplyAll(PP, m, Tail(augs), T) IN [r EXCEPT !.left = <<a>> \o r.left]
           ELSE LET inst == Inst(PP, a.kids, << [mod |-> m, kids |-> a.kids], [mod |-> m, kids |-> PP[m].body] >>)
-                   barren == f.node.kind \in Childless
-                   merged == AddKids(f.node, Stamp(inst.nodes, NSOf(PP, m)))
+                   barren == f.node.kind \notin Augmentable
+                   merged == AddKids(f.node, Stamp(Constrain(inst.nodes, a.kids), NSOf(PP, m)))
                    newT == IF barren THEN T ELSE [T EXCEPT ![tm] = Replace(T[tm], names, merged.node)]
                    r == ApplyAll(PP, m, Tail(augs), newT)
                IN [r EXCEPT !.done = r.done + 1,
@@ -196,8 +206,9 @@ ApplyAll(PP, m, augs, T) ==      \* [trees, left, done, err]
 RECURSIVE FixChoice(_)
 FixChoice(n) ==
   LET fixed == [k \in 1..Len(n.kids) |-> FixChoice(n.kids[k])]
-      wrap(c) == [name |-> c.name, kind |-> "case", cfg |-> c.cfg, mand |-> "unset", dflt |-> <<>>, la |-> NoLA, units |-> "",
-                  type |-> "", ns |-> "", implicit |-> TRUE, kids |-> <<c>>]
+      \* the implicit case has no statements of its own (no config); it is placed by the text that placed its member
+      wrap(c) == [name |-> c.name, kind |-> "case", cfg |-> "unset", mand |-> "unset", dflt |-> <<>>, la |-> NoLA, units |-> "",
+                  type |-> "", iff |-> <<>>, ns |-> c.ns, implicit |-> TRUE, kids |-> <<c>>]
   IN [n EXCEPT !.kids = IF n.kind = "choice"
                         THEN [k \in 1..Len(fixed) |-> IF fixed[k].kind = "case" THEN fixed[k] ELSE wrap(fixed[k])]
                         ELSE fixed]
@@ -277,10 +288,10 @@ BuildErr == \/ \E m \in Mods : ModuleTree(P, m).err
             \/ \E m \in All \ Mods : Inst(P, P[m].body, << [mod |-> m, kids |-> P[m].body] >>).err
 Init == /\ prog = [mods |-> << >>, ignoreNS |-> FALSE]
         /\ trees = << >> /\ pending = << >> /\ work = <<>> /\ i = 0 /\ progress = 0 /\ devleft = {}
-        /\ errs = FALSE /\ pc = "pick" /\ naug = 0
+        /\ errs = FALSE /\ pc = "pick" /\ sincefix = 0 /\ nfix = 0 /\ naug = 0
 
 Pick == /\ pc = "pick" /\ prog' \in Programs /\ pc' = "build"
-        /\ UNCHANGED <<trees, pending, work, i, progress, devleft, errs, naug>>
+        /\ UNCHANGED <<trees, pending, work, i, progress, devleft, errs, sincefix, nfix, naug>>
 
 Build == /\ pc = "build"
          /\ LET built == [m \in Mods |-> ModuleTree(P, m)] IN
@@ -288,41 +299,46 @@ Build == /\ pc = "build"
             /\ errs' = BuildErr
             /\ pending' = [m \in All |-> Augments(P, m)]
             /\ pc' = IF errs' THEN "done" ELSE "order"
-         /\ UNCHANGED <<prog, work, i, progress, devleft, naug>>
+         /\ UNCHANGED <<prog, work, i, progress, devleft, sincefix, nfix, naug>>
 
 Order == /\ pc = "order" /\ work' \in Perms(All) /\ i' = 1 /\ progress' = 0 /\ pc' = "aug"
-         /\ UNCHANGED <<prog, trees, pending, devleft, errs, naug>>
+         /\ UNCHANGED <<prog, trees, pending, devleft, errs, sincefix, nfix, naug>>
 
 AugStep == /\ pc = "aug" /\ i <= Len(work)
            /\ LET m == work[i]
                   r == ApplyAll(P, m, pending[m], trees) IN
               /\ trees' = r.trees /\ pending' = [pending EXCEPT ![m] = r.left]
-              /\ progress' = progress + r.done /\ naug' = naug + r.done
+              /\ progress' = progress + r.done /\ naug' = naug + r.done /\ sincefix' = sincefix + r.done
               /\ errs' = (errs \/ r.err)
               /\ IF r.left = <<>>
                  THEN work' = [k \in 1..(Len(work) - 1) |-> IF k = i THEN work[Len(work)] ELSE work[k]] /\ i' = i
                  ELSE work' = work /\ i' = i + 1
-           /\ UNCHANGED <<prog, devleft, pc>>
+           /\ UNCHANGED <<prog, devleft, pc, nfix>>
 
 RoundEnd == /\ pc = "aug" /\ i > Len(work)
             /\ IF progress = 0 \/ work = <<>> THEN pc' = "fix" /\ UNCHANGED <<i, progress>>
                ELSE pc' = "aug" /\ i' = 1 /\ progress' = 0
-            /\ UNCHANGED <<prog, trees, pending, work, devleft, errs, naug>>
+            /\ UNCHANGED <<prog, trees, pending, work, devleft, errs, sincefix, nfix, naug>>
 
 Fix == /\ pc = "fix"
        /\ trees' = [m \in Mods |-> FixChoice(trees[m])]
-       /\ errs' = (errs \/ \E m \in All : pending[m] # <<>>)      \* a target that never appeared
-       /\ devleft' = {m \in All : Deviations(P, m) # <<>>}
-       /\ pc' = "dev"
-       /\ UNCHANGED <<prog, pending, work, i, progress, naug>>
+       /\ IF work = <<>> \/ (nfix > 0 /\ sincefix = 0)
+          THEN /\ errs' = (errs \/ \E m \in All : pending[m] # <<>>)      \* a target that never appeared
+               /\ devleft' = {m \in All : Deviations(P, m) # <<>>}
+               /\ pc' = "dev"
+               /\ UNCHANGED <<i, progress, sincefix, nfix>>
+          ELSE \* augments are left: with the implicit cases in place their targets may exist now
+               /\ pc' = "aug" /\ i' = 1 /\ progress' = 0 /\ sincefix' = 0 /\ nfix' = nfix + 1
+               /\ UNCHANGED <<errs, devleft>>
+       /\ UNCHANGED <<prog, pending, work, naug>>
 
 DevStep == /\ pc = "dev" /\ devleft # {}
            /\ \E m \in devleft :
                 LET r == ApplyDevs(P, m, Deviations(P, m), trees) IN
                 /\ trees' = r.trees /\ errs' = (errs \/ r.err) /\ devleft' = devleft \ {m}
-           /\ UNCHANGED <<prog, pending, work, i, progress, pc, naug>>
+           /\ UNCHANGED <<prog, pending, work, i, progress, pc, sincefix, nfix, naug>>
 DevEnd == /\ pc = "dev" /\ devleft = {} /\ pc' = "done"
-          /\ UNCHANGED <<prog, trees, pending, work, i, progress, devleft, errs, naug>>
+          /\ UNCHANGED <<prog, trees, pending, work, i, progress, devleft, errs, sincefix, nfix, naug>>
 
 Next == Pick \/ Build \/ Order \/ AugStep \/ RoundEnd \/ Fix \/ DevStep \/ DevEnd
 Spec == Init /\ [][Next]_vars /\ WF_vars(Next)
@@ -335,7 +351,7 @@ FlatOf(n, path, ns, ro, top) ==
       p == IF top THEN <<>> ELSE Append(path, n.name)
       me == IF top \/ (n.kind \in {"input", "output"} /\ n.kids = <<>>) THEN {}     \* unwritten, untouched input / output
             ELSE {[p |-> p, kind |-> n.kind, ro |-> myro, ns |-> myns, implicit |-> n.implicit,
-                   cfg |-> n.cfg, mand |-> n.mand, dflt |-> n.dflt, la |-> n.la, units |-> n.units, type |-> n.type]}
+                   cfg |-> n.cfg, mand |-> n.mand, dflt |-> n.dflt, la |-> n.la, units |-> n.units, type |-> n.type, iff |-> n.iff]}
   IN me \cup UNION {FlatOf(n.kids[k], p, myns, myro, FALSE) : k \in 1..Len(n.kids)}
 Flat(m) == FlatOf(trees[m], <<>>, P[m].ns, FALSE, TRUE)
 
@@ -356,8 +372,18 @@ DevAll(PP, ms, st) == IF ms = <<>> THEN st
 CanonSeq == SelectSeq(CanonOrder, LAMBDA m : m \in All)
 CanonBuilt == [m \in Mods |-> ModuleTree(P, m)]
 CanonLoop == Loop(P, CanonSeq, [T |-> [m \in Mods |-> CanonBuilt[m].root], pend |-> [m \in All |-> Augments(P, m)], err |-> FALSE])
-CanonFixed == [T |-> [m \in Mods |-> FixChoice(CanonLoop.T[m])],
-               err |-> CanonLoop.err \/ \E m \in All : CanonLoop.pend[m] # <<>>]
+\* rounds until no progress, implicit cases, and again while something is pending and the last pass applied something
+RECURSIVE Phases(_, _, _)
+Phases(PP, st, first) ==
+  LET r == Loop(PP, CanonSeq, st)
+      progressed == r.pend # st.pend
+      fixed == [r EXCEPT !.T = [m \in DOMAIN r.T |-> FixChoice(r.T[m])]]
+  IN IF ~first /\ ~progressed THEN fixed
+     ELSE IF \A m \in DOMAIN fixed.pend : fixed.pend[m] = <<>> THEN fixed
+     ELSE Phases(PP, fixed, FALSE)
+CanonPhases == Phases(P, [T |-> [m \in Mods |-> CanonBuilt[m].root], pend |-> [m \in All |-> Augments(P, m)], err |-> FALSE], TRUE)
+CanonFixed == [T |-> CanonPhases.T,
+               err |-> CanonPhases.err \/ \E m \in All : CanonPhases.pend[m] # <<>>]
 CanonFinal == DevAll(P, CanonSeq, CanonFixed)
 CanonFlat(m) == FlatOf(CanonFinal.T[m], <<>>, P[m].ns, FALSE, TRUE)
 
@@ -392,5 +418,5 @@ Termination == <>(pc = "done")
 
 Export == pc # "done" \/ PrintT(<<"CASE", ToJson([prog |-> prog, errs |-> errs,
                                        flat |-> [m \in Mods |-> IF errs THEN {} ELSE Flat(m)]])>>)
-View == <<prog, trees, pending, work, i, progress, devleft, errs, pc>>
+View == <<prog, trees, pending, work, i, progress, devleft, errs, pc, sincefix, nfix>>
 =============================================================================
